@@ -182,7 +182,13 @@ def view(W, key, label, imported, verifier=None):
             v['key_expiry'] = next((t for t in ('p2', 'p3') if ea - key.created == expiry_of(t)), '?')
     except Exception:
         v['key_expiry'] = 'raised'
-    tags = [t for t, b, r in build.read_packets(bytes(key))]
+    try:
+        tags = [t for t, b, r in build.read_packets(bytes(key))]
+        v['export_ok'] = True
+    except Exception:
+        # what the key serialises to is not a sequence of packets (headers and bodies do not add up)
+        tags = []
+        v['export_ok'] = False
     v['tags'] = tags
     v['grammar_ok'] = key_grammar(tags)
     return v
@@ -299,7 +305,11 @@ def replay(W, behaviour, observe_every=True):
                 elif op == 'add_sub':
                     seq += 1
                     sk = W.fresh(a)
-                    if protected:
+                    if protected and seq % 2 == 0:
+                        # the plain way: a freshly generated (unprotected) key is added while the protected key is unlocked; leaving the
+                        # unlock scope locks what is protected and leaves the new subkey as it is
+                        run(lambda: key.add_subkey(sk, usage=set(W.tags[tag][0]), policy_uri='urn:seq:%d' % seq, created=created))
+                    elif protected:
                         sk.protect(PWD, SymmetricKeyAlgorithm.AES128, HashAlgorithm.SHA256)
                         with sk.unlock(PWD):
                             run(lambda: key.add_subkey(sk, usage=set(W.tags[tag][0]), policy_uri='urn:seq:%d' % seq, created=created))
